@@ -59,3 +59,27 @@ func init() {
 		})
 	})
 }
+
+func init() {
+	extraIntrinsics = append(extraIntrinsics, func(w *World) {
+		V := VerifPkgPath + "."
+		// FiberHeader(name, value): what (*fiber.Ctx).Get(name) returns from now on.
+		w.reg(V+"FiberHeader", func(e *Exec, fn *ssa.Function, a []Value) Value {
+			e.env["fiber.header:"+e.argStr(a[0], "header name")] = a[1]
+			return nil
+		})
+		w.reg("(*github.com/gofiber/fiber/v2.Ctx).Get", func(e *Exec, fn *ssa.Function, a []Value) Value {
+			name := e.argStr(a[1], "header name")
+			if v, ok := e.env["fiber.header:"+name]; ok {
+				return v
+			}
+			// default value argument, else ""
+			if len(a) > 2 {
+				if sl, ok := a[2].(SliceV); ok && sl.Len > 0 {
+					return sl.Arr.Kids[sl.Off].V
+				}
+			}
+			return &StrV{}
+		})
+	})
+}
